@@ -118,7 +118,7 @@ def run(ctx):
         prog, queries = meta[jid]
         q, t = queries[i]
         if o[0] == "panic":
-            failures.append({"key": "panic", "what": "query panics on a run without cyclic bindings", "input": S.program_text(prog) + "?- " + S.query_text(q, t),
+            failures.append({"key": "panic:" + o[1][:48], "what": "query panics on a run without cyclic bindings", "input": S.program_text(prog) + "?- " + S.query_text(q, t),
                              "impl": o[1][:300], "spec": "no panic", "property_fails": True})
             continue
         if c == 1:
